@@ -38,6 +38,11 @@ InRange(v, lo, hi) == v >= lo /\ (hi = -1 \/ v <= hi)
 HostIn(ip, h, bits) == (ip \div Pow2(32 - bits)) = (h \div Pow2(32 - bits))
 HasTok(s, d, tok) == \E i \in DOMAIN s.ev : s.ev[i].d = d /\ s.ev[i].t = tok
 
+NumVal(t, s) == CASE t = "id" -> s.id [] t = "cbytes" -> s.cbytes [] t = "sbytes" -> s.sbytes
+                  [] t = "cport" -> s.cport [] t = "sport" -> s.sport
+LinVars == <<"id", "cport", "sport", "cbytes", "sbytes">>
+RECURSIVE LinSum(_, _, _)
+LinSum(ms, s, i) == IF i > Len(ms) THEN 0 ELSE ms[i] * NumVal(LinVars[i], s) + LinSum(ms, s, i + 1)
 AtomHolds(a, s, P) ==
     CASE a.k = "id"     -> InRange(s.id, a.lo, a.hi)
       [] a.k = "idlist" -> s.id \in Range(a.s)
@@ -56,6 +61,10 @@ AtomHolds(a, s, P) ==
       [] a.k = "data"   -> HasTok(s, "c", a.tok) \/ HasTok(s, "s", a.tok)
       [] a.k = "ftime"  -> InRange(s.ft, a.lo, a.hi)
       [] a.k = "ltime"  -> InRange(s.lt, a.lo, a.hi)
+      \* arithmetic on fields of the same stream:  field OP n + sum(s[i] * LinVars[i])   (id:7-@id@:  means id >= 7 - id)
+      [] a.k = "lin"    -> LET rhs == a.n + LinSum(a.s, s, 1)
+                               v == NumVal(a.name, s)
+                           IN CASE a.tok = "ge" -> v >= rhs [] a.tok = "le" -> v <= rhs [] OTHER -> v = rhs
       \* restricted sub-queries: some visible stream t of the searched population P satisfies the sub-query and the join
       [] a.k = "sub_port" -> \E t \in P : t.cport = a.n /\ s.sport = t.sport          \* @s:cport:n sport:@s:sport@
       [] a.k = "sub_id"   -> \E t \in P : a.name \in Range(t.tags) /\ s.id = t.id + 1  \* @s:tag:x id:@s:id@+1
@@ -114,8 +123,6 @@ Eval3(q, s, P) ==
      "data"  els = <<[d, tok], ...>>, inv              the first n-1 elements match in sequence and the last one matches XOR inv
      "time"  ft, lt factors, dur (rank units)          fulfilled when dur + ft*s.ft + lt*s.lt >= 0
      "imp"                                             never fulfilled *)
-NumVal(t, s) == CASE t = "id" -> s.id [] t = "cbytes" -> s.cbytes [] t = "sbytes" -> s.sbytes
-                  [] t = "cport" -> s.cport [] t = "sport" -> s.sport
 RECURSIVE SumOf(_, _)
 SumOf(sum, s) == IF sum = <<>> THEN 0 ELSE Head(sum).factor * NumVal(Head(sum).type, s) + SumOf(Tail(sum), s)
 
